@@ -5,6 +5,7 @@ import Exetera.Lemmas.Storage
 import Exetera.Lemmas.Offsets
 import Exetera.Lemmas.IndexedWriter
 import Exetera.Lemmas.IndexedReader
+import Exetera.Lemmas.Variants
 /-!
   C01 — field storage round-trip: what is written is what is read.
 
@@ -186,6 +187,38 @@ example : ∃ a, writeParts .repaired (0 : Int) (Arr.fresh false) [[1, 2], [], [
 example : ∃ a, writeParts .repaired (0 : Int) (Arr.fresh true) [[], [1, 2], [3]] = .ok a ∧ a.contents = [1, 2, 3] :=
   ⟨_, rfl, rfl⟩
 
+/-! ### (d') what holds for the code as found (without the D1 / D2 patches) -/
+
+/-- The as-found indexed writer equals the repaired one whenever at least one entry is written (every chunk size `≥ 1`,
+    partition — empty parts included — and backend): D1 cannot be reached through the indexed writer, and D2 is confined
+    to `complete()` on a field without entries. All theorems above therefore hold for the unpatched writer on every
+    non-empty sequence. -/
+theorem indexed_asFound_agrees (c : Nat) (hc : 1 ≤ c) (h5 : Bool) (parts : List (List Bytes))
+    (hne : written parts ≠ []) :
+    writeField .asFound c h5 parts = writeField .repaired c h5 parts :=
+  writeField_asFound_eq c hc h5 parts hne
+
+/-- the round trip for the code as found, excluding the D2 witness shape by the explicit hypothesis `written parts ≠ []`.
+    (Full statement without that hypothesis: `indexed_roundtrip`, which needs the D2 patch —
+    `Witness.C01.d2_empty_field_has_no_offset` refutes it for the code as found.) -/
+theorem indexed_roundtrip_asFound_partial (c : Nat) (hc : 1 ≤ c) (h5 : Bool) (parts : List (List Bytes))
+    (hne : written parts ≠ []) :
+    ∃ s, writeField .asFound c h5 parts = .ok s ∧
+      s.values.contents = (written parts).flatten ∧ s.indices.contents = offsets (written parts) := by
+  obtain ⟨s, hs, hv, hi, _, _⟩ := indexed_roundtrip c hc h5 parts
+  exact ⟨s, by rw [indexed_asFound_agrees c hc h5 parts hne]; exact hs, hv, hi⟩
+
+example : written [[[97]], ([] : List Bytes)] ≠ [] := by decide
+
+/-- plain fields as found: when no `write_part` call is empty the as-found append equals the repaired one (D1 is the
+    empty part after data: `Witness.C01.d1_empty_part_raises`). -/
+theorem plain_append_asFound_partial {α} (z : α) (h5 : Bool) (parts : List (List α)) (hne : ∀ p ∈ parts, p ≠ []) :
+    ∃ a, writeParts .asFound z (Arr.fresh h5) parts = .ok a ∧ a.contents = written parts := by
+  rw [writeParts_asFound_of_nonempty z _ parts hne]
+  exact plain_append z h5 parts
+
+example : ∀ p ∈ [[1, 2], [3]], p ≠ ([] : List Int) := by decide
+
 /-! ### (e) dtype, categorical key, reopen dispatch -/
 
 /-- `data[:]` has the declared dtype, also for a memory field nothing was ever written to (NC01a repaired) -/
@@ -213,5 +246,7 @@ theorem reopen_dispatch (k : Kind) : reopenClass k = .ok k.cls := by
   cases k <;> rfl
 
 example : reopenClass (.fixedString 5) = .ok .FixedStringField := rfl
+example : readDtype .repaired false "int32" false = "int32" := rfl
+example : fieldLen (offsets [[97], [], [98, 99]]) = 3 := rfl
 
 end Exetera.Props.C01
